@@ -20,6 +20,7 @@ const (
 	KTuple
 	KConst  // untyped numeric constant in contract expressions
 	KGlobalPtr
+	KKey // a raw map key term (contract expressions)
 )
 
 // Val is a symbolic value.
